@@ -101,6 +101,10 @@ def render(t, uni, backend, style=None, md=None):
         if k == "Root":
             names = [c["a"] for c in ch[1:]]
             return "ResultTTree(%s, %r, %r, %r)" % (r(ch[0]), names if len(names) != 1 or t["d"] != 0 else names[0], t["a"], t["b"])
+        if k == "EnumCmp":
+            return "(%s.color() == %s.Color.%s)" % (r(ch[0]), uni["dotns"][backend], t["a"])
+        if k == "EnumArg":
+            return "%s.colorIs(%s.Color.%s)" % (r(ch[0]), uni["dotns"][backend], t["a"])
         if k == "CmpChain":
             return "(%s < %s < %s)" % (r(ch[0]), r(ch[1]), r(ch[2]))
         if k == "AggOnly":
